@@ -126,6 +126,60 @@ def mixed_case(case):
     return r
 
 
+KNOTSETS = [[2.0, 1.25, 0.5, 0.0, -0.75, -1.5, -2.0], [-0.5, -1.0, -2.5], [3.0, 2.5, 1.0, 0.25], [1.0, 0.0], [1.0, 0.5, -0.5],
+            [-2.0, -1.5, -0.75, 0.0, 0.5, 1.25, 2.0], [0.25, 1.0, 2.5, 3.0], [0.0, 1.0]]
+
+
+def knots_case(case):
+    """a dense solution assembled piece by piece the way a run does it (forward: appended, backward in time: prepended), from cubic pieces that are continuous
+    in value but KINK at every knot: the scalar and the array-valued lookups must pick the same piece for every query - on the knots, one unit in the
+    last place beside them, between them and outside - and evaluate to the same values and slopes."""
+    de, U, _ = _imports()
+    from desolver.utilities.interpolation import CubicHermiteInterp
+    r = Res()
+    dt = DTYPES[case["dtype"]]
+    knots = [dt(k) for k in KNOTSETS[case["set"]]]
+    from desolver.differential_system import DenseOutput
+    sol = DenseOutput(None, None)
+    val = lambda t: np.array([np.sin(float(t)), 0.5 * float(t)], dtype=dt)
+    for i in range(len(knots) - 1):
+        t0, t1 = knots[i], knots[i + 1]
+        m0 = np.array([1.0 + i, -0.5 * i], dtype=dt); m1 = np.array([-2.0 + 0.25 * i, 0.75 + i], dtype=dt)      # slopes differ from piece to piece
+        sol.add_interpolant(t1, CubicHermiteInterp(t0, t1, val(t0), val(t1), m0, m1))
+    qs = []
+    for k in knots:
+        qs += [k, np.nextafter(k, dt(np.inf)), np.nextafter(k, dt(-np.inf))]
+    for a, b in zip(knots[:-1], knots[1:]):
+        qs += [a + (b - a) * dt(0.5), a + (b - a) * dt(0.125)]
+    lo, hi = min(knots), max(knots)
+    qs += [lo - dt(1), hi + dt(1)]
+    qarr = np.array(qs, dtype=dt)
+    r.n = len(qs)
+    ctxd = dict(section="knots", dtype=case["dtype"], set=case["set"], knots=[float(k) for k in knots])
+    try:
+        idx_s = np.array([int(sol.find_interval(q)) for q in qarr])
+        idx_v = np.asarray(sol.find_interval_vec(qarr.copy()))
+        if not np.array_equal(idx_s, idx_v):
+            i = int(np.nonzero(idx_s != idx_v)[0][0])
+            r.v("C17/dense-lookup/index", "scalar and array-valued lookups of a dense solution pick the same piece", dict(ctxd, query=float(qarr[i])), observed=dict(scalar=int(idx_s[i]), vector=int(idx_v[i])), expected="equal")
+        for layout in ("1d", "2d"):
+            Q = qarr if layout == "1d" else np.concatenate([qarr, qarr[:len(qarr) % 2]]).reshape(2, -1)
+            for nm, fn in (("value", sol.__call__), ("slope", sol.grad)):
+                import io, contextlib
+                with contextlib.redirect_stdout(io.StringIO()):
+                    got = np.asarray(fn(Q.copy()))
+                    want = np.stack([np.asarray(fn(q)) for q in Q.reshape(-1)]).reshape(Q.shape + (2,))
+                r.n += 1
+                if got.shape != want.shape or not np.array_equal(got, want):
+                    bad = None if got.shape != want.shape else tuple(int(v) for v in np.argwhere(np.any(got != want, axis=-1))[0])
+                    r.v("C17/dense-lookup/%s" % nm, "array-valued evaluation of a dense solution equals the evaluation one query at a time", dict(ctxd, layout=layout, query=None if bad is None else float(Q[bad])),
+                        observed=(list(got.shape) if bad is None else got[bad].tolist()), expected=(list(want.shape) if bad is None else want[bad].tolist()))
+    except Exception as e:
+        r.v("C17/dense-lookup/raises", "lookups of an assembled dense solution are served", ctxd, observed=repr(e)[:200], expected="values")
+    r.out(("knots", case["dtype"], case["set"], knots[0] > knots[-1]))
+    return r
+
+
 # ------------------------------------------------------------------ Hermite
 LAT5 = [-1.5, -0.5, 0.0, 0.75, 2.0]
 FAR_INTERVALS = [(1000.0, 1000.003), (1000.003, 1000.0), (-250.3, -250.31), (-250.31, -250.3), (4096.1, 4096.7), (33.3, 33.1)]
@@ -255,7 +309,7 @@ def hermite_case(case):
 
 
 def run_case(case):
-    return dict(bisect=bisect_case, mixed=mixed_case, hermite=hermite_case)[case["section"]](case)
+    return dict(bisect=bisect_case, mixed=mixed_case, hermite=hermite_case, knots=knots_case)[case["section"]](case)
 
 
 def run(ctx):
@@ -268,6 +322,7 @@ def run(ctx):
     ctx.assumptions += ["Hermite tolerance = 64*eps*sum|basis_i|(|t|)*|data_i| (absolute-coefficient bound of the basis polynomials); bisection compared exactly"]
     cases = [dict(section="bisect", dtype=d, length=n) for d in list(DTYPES) + ["list"] for n in range(1, 8)]
     cases += [dict(section="mixed", adtype=a, qdtype=q, length=n) for a in DTYPES for q in DTYPES if a != q for n in range(1, 6)]
+    cases += [dict(section="knots", dtype=d, set=k) for d in DTYPES for k in range(len(KNOTSETS))]
     cases += [dict(section="hermite", dtype=d, shape=s, cubic=c) for d in DTYPES for s in ([], [3], [2, 2]) for c in CUBICS]
     grid.pmap(run_case, cases, ctx, horizon=300, chunksize=1)
 
@@ -276,6 +331,8 @@ def replay(case):
     # a recorded case names one array/query (bisect) or one interval (hermite); re-run the enclosing cell
     if case["section"] == "bisect":
         return bisect_case(dict(section="bisect", dtype=case["dtype"], length=case["length"]))
+    if case["section"] == "knots":
+        return knots_case(dict(section="knots", dtype=case["dtype"], set=case["set"]))
     if case["section"] == "mixed":
         return mixed_case(dict(section="mixed", adtype=case["adtype"], qdtype=case["qdtype"], length=case["length"]))
     return hermite_case(dict(section="hermite", dtype=case["dtype"], shape=case["shape"], cubic=case["cubic"]))
